@@ -11,6 +11,7 @@ func main() {
 		{Name: "mv", Gen: genMV},
 		{Name: "samplers", Gen: genSamplers},
 		{Name: "views", Gen: genViews},
+		{Name: "repeat", Gen: genRepeat},
 	}
 	if !noasmBuild {
 		// Only the groups above reach code with assembly kernels (floats.Sum in
